@@ -22,10 +22,10 @@ import random
 import time
 
 from vlib import core, corr
-from props import c03_tls, c03_quic
+from props import c03_tls, c03_quic, c03_sched
 
 GENERATORS = ["c03_transcript"]
-DEPENDS = ["TlsDispatch (generated, C11)", "TlsTranscript (generated)", "TlsSymbolic", "TlsSymbolicP*", "C03"]
+DEPENDS = ["TlsDispatch (generated, C11)", "TlsTranscript (generated)", "TlsSymbolic", "TlsSymbolicP*", "TlsTwoParty", "TlsTwoPartyP*", "C03"]
 TRUSTED_BASE = [
     "tools/gen/c03_transcript.py (Python-ast extraction of the update_hash / derive / check event order of every handshake "
     "handler, labels, tables, negotiate; fail closed) and tools/gen/c11_dispatch.py (dispatch table)",
@@ -39,8 +39,11 @@ TRUSTED_BASE = [
 ]
 ASSUMPTIONS = [
     "symbolic cryptography: o_hash, o_hmac, o_expand (HKDF-Expand-Label) injective; computational soundness of that idealisation is outside",
-    "Finished provenance: the Finished message an endpoint accepts is one the honest peer computed (stands for MAC unforgeability "
-    "under a key derived from the (EC)DHE / PSK secret the adversary does not hold)",
+    "one-party theorems (_partial): Finished provenance - the Finished message an endpoint accepts is one the honest peer computed",
+    "two-party theorems: Finished provenance is DERIVED; hypotheses: ideal2 (also: o_sign injective, cross-algorithm hash injectivity, "
+    "canonical Finished, message types), sig_pair (certificate belongs to the key), dy_sound at every knowledge state of the run "
+    "(HMAC / signature unforgeability, HKDF-Expand, HKDF-Extract (both arguments) and DH secrecy against the Dolev-Yao closure), "
+    "secure (adversary does not know the server's certificate key and both (EC)DHE private keys, resp. the PSK)",
     "codec round trips parse(build v) = v and framed outputs (proved about the Gallina codecs in C17, here premises)",
     "cert_ok oracle = verify_certificate (chain, validity period, host name); o_sig_verify = public_key.verify",
     "one complete handshake message per handle_message call (reassembly exercised by the QUIC-level runs, not modelled)",
@@ -580,10 +583,11 @@ def run(ctx):
     tls_stats = c03_tls.t_run(ctx)
     adv_stats = run_adversary(ctx)
     psk_stats = run_pskconf(ctx)
+    sched_stats = c03_sched.sched_suite(ctx, _sub_rng(ctx, "sched"))
     quic_stats = _quic_join(ctx, quic_handle)
     cov_extra["model_tie"] = model_tie(ctx, tls_stats, quic_stats)
     seen = set()
-    for stats in (tls_stats, adv_stats, psk_stats, quic_stats):
+    for stats in (tls_stats, adv_stats, psk_stats, sched_stats, quic_stats):
         for name, st in stats.items():
             if name.startswith("_") or not isinstance(st, dict):
                 continue
@@ -618,6 +622,8 @@ def replay(ctx, rep):
     suite = str(case.get("suite", ""))
     if suite.startswith("quic"):
         return c03_quic.q_replay(ctx, case)
+    if suite == "tls-sched":
+        return c03_sched.sched_replay(ctx, case)
     if suite == "tls-pskconf":
         from props import c11
         c11.env()
